@@ -321,6 +321,41 @@ def dtype_forms(ctx):
                               f"centres differ from the direct quadrature / from the float call", case)
 
 
+def integer_point_grids(ctx):
+    """The grid's own point array in an integer dtype (a lattice of whole numbers) with centres that have a fractional part:
+    the moments are those of the same grid with float points and of the direct quadrature (lesson 20)."""
+    import itertools as it
+
+    from grid.basegrid import Grid
+
+    rng = np.random.default_rng([ctx.seed, 77])
+    for dim, pts in ((1, np.arange(-3, 4)), (2, np.array(list(it.product(range(-2, 2), range(3))))), (3, np.array(list(it.product(range(-1, 2), repeat=3))))):
+        w = rng.uniform(0.2, 1.0, len(pts))
+        f = np.cos(0.3 * np.arange(len(pts))) + 1.5
+        cen = np.array([[0.5, -0.25, 0.75], [1.0, 2.0, -1.0], [-1.5, 0.5, 0.25]])[:, :dim]
+        P = pts.reshape(len(pts), -1)
+        for dt in (np.int64, np.int32):
+            for kind in ("cartesian", "radial", "pure", "pure-radial"):
+                if kind in ("pure", "pure-radial") and dim != 3:
+                    continue
+                ctx.count(section="integer-points")
+                case = {"route": "integer-points", "dim": dim, "dtype": np.dtype(dt).name, "type": kind}
+                try:
+                    with warnings.catch_warnings():
+                        warnings.simplefilter("ignore")
+                        a = np.asarray(Grid(P.astype(dt), w.copy()).moments(2, cen, f, type_mom=kind), dtype=float)
+                        b = np.asarray(Grid(P.astype(float), w.copy()).moments(2, cen, f, type_mom=kind), dtype=float)
+                except Exception as exc:
+                    ctx.violation(f"integer-points:{kind}:raised:{type(exc).__name__}", f"moments on a grid with {np.dtype(dt).name} points (dim {dim}): {exc}", case)
+                    continue
+                ref, _, sc = ref_moments(P.astype(float), w, f, cen, 2, kind)
+                ctx.nontrivial(("integer-points", dim, np.dtype(dt).name, kind), section="integer-points")
+                tol = 1e-11 * (sc + 1e-3 * np.max(sc))
+                if a.shape != ref.shape or np.any(_gt(np.abs(a - ref), tol)) or np.any(_gt(np.abs(a - b), tol)):
+                    ctx.violation(f"integer-points:{kind}:differs-from-float-points", f"dim {dim}: {kind} moments on a grid whose points are {np.dtype(dt).name} "
+                                  f"differ from the float grid / the direct quadrature", case)
+
+
 def reassign_histories(ctx):
     """moments, reassign the grid's points (or weights) through the setter, moments again with the SAME centres and
     order: the second answer is that of a fresh grid holding the new arrays (added after seeded change C14-E: a
@@ -392,6 +427,7 @@ def run(ctx):
     ctx.guarded("refill", refill_histories, ctx)
     ctx.guarded("reassign", reassign_histories, ctx)
     ctx.guarded("dtypes", dtype_forms, ctx)
+    ctx.guarded("integer-points", integer_point_grids, ctx)
     ctx.guarded("homogeneity", homogeneity, ctx)
     ctx.cov["configurations"] = len(jobs)
     ctx.exhaustive = True
@@ -400,6 +436,8 @@ def run(ctx):
 def replay(ctx, case):
     if case.get("route") == "homogeneity":
         return homogeneity(ctx)
+    if case.get("route") == "integer-points":
+        return integer_point_grids(ctx)
     if case.get("route") == "dtypes":
         return dtype_forms(ctx)
     if case.get("route") == "reassign":
